@@ -235,7 +235,9 @@ def L_fluid(g):
     v = g['velup3']
     vd = E('ij,j->i', gd, v)
     rho, p, h0 = g['rho'], g['press'], g['enthalpy']
-    rhohW2 = g['rho0'] * h0 * W * W
+    # rho0 h = rho + p (enthalpy density); written this way so that it also holds where rho0 = 0,
+    # where the code's documented x/0 = 0 convention makes the specific enthalpy h itself meaningless
+    rhohW2 = (rho + p) * W * W
     return [('u^mu u_mu = -1', E('a,a->', u_u, u_d), -1),
             ('g^mn u_m u_n = -1', E('ab,a,b->', g['gup4'], u_d, u_d), -1),
             ('g_mn u^m u^n = -1', E('ab,a,b->', g['gdown4'], u_u, u_u), -1),
@@ -247,6 +249,7 @@ def L_fluid(g):
             ('press_n = tr S / 3', g['press_n'], E('ij,ij->', g['gammaup3'], g['Stressdown3_n']) * T3),
             ('Ttrace = 3 p - rho', g['Ttrace'], 3 * p - rho),
             ('Ttrace = 3 press_n - rho_n', g['Ttrace'], 3 * g['press_n'] - g['rho_n']),
+            ('rho0 * enthalpy = rho + p where rho0 != 0', g['rho0'] * (g['rho0'] * h0 - rho - p), 0),
             ('h_mn u^n = 0', E('ab,b->a', g['hdown4'], u_u), arr([0] * 4)),
             ('h^m_n projector', E('ab,bc->ac', g['hmixed4'], g['hmixed4']), g['hmixed4']),
             ('hup4 lowered = hdown4', E('ai,bj,ij->ab', g['gdown4'], g['gdown4'], g['hup4']), g['hdown4']),
